@@ -188,6 +188,41 @@ class MethodView:
                 other.append(e)
         return out, other
 
+    def exists_guards(self):
+        """[(guard, collection, predicate term over ("elem", collection))] for guards that fail iff SOME element of a collection
+        satisfies a predicate, in any of the forms
+            if c.iter().any(|x| p(x)) { fail }          for x in c { if p(x) { fail } }
+            if let Some(..) = c.iter().find(|x| p(x)) { fail }     (also `.position(..)`, `.is_some()` on either)"""
+        out = []
+        for g in self.gt:
+            c = g["cond"]
+            fw = g["fail_when"]
+            inner = c
+            # find(..) / position(..): through is_some()/is_none() or a match on the Option's discriminant
+            nm = P.call_name(inner) or ""
+            if nm.endswith("::is_some") and fw is True and inner[4]:
+                inner, fw = P.norm(inner[4][0]), "some"
+            elif nm.endswith("::is_none") and fw is False and inner[4]:
+                inner, fw = P.norm(inner[4][0]), "some"
+            elif isinstance(c, tuple) and c and c[0] == "discr" and g["kind"] == "match" and set(g.get("vals") or []) == {"1"}:
+                inner, fw = P.norm(c[1]), "some"
+            nm = P.call_name(inner) or ""
+            if fw == "some" and nm.rsplit("::", 1)[-1] in ("find", "position") and len(inner[4]) == 2 and isinstance(inner[4][1], tuple) and inner[4][1][0] == "closure":
+                coll = P.norm(inner[4][0])
+                out.append((g, coll, P.norm(self.fr.closure_ret(inner[4][1], [("elem", coll)], site_hint=inner[1]))))
+                continue
+            if fw is True and nm.endswith("::any") and len(inner[4]) == 2 and isinstance(inner[4][1], tuple) and inner[4][1][0] == "closure":
+                coll = P.norm(inner[4][0])
+                out.append((g, coll, P.norm(self.fr.closure_ret(inner[4][1], [("elem", coll)], site_hint=inner[1]))))
+                continue
+            if fw is True:
+                loops = [x[1] for x in self.fr.ctrl_of_block(g["bb"]) if x[0] == "loop" and tuple(x[2]) == ("1",)]
+                for coll in loops:
+                    if any(s == ("elem", coll) for s in T.walk(c)):
+                        out.append((g, P.norm(coll), P.norm(c)))
+                        break
+        return out
+
     def self_field_writes(self):
         """[(bb, [field names])] of every direct assignment through `self` (own or an expanded helper's)"""
         out = []
